@@ -108,6 +108,12 @@ pub const PHASES: [&str; 8] = ["node-create", "service-open-or-create", "port-cr
 
 /// an invisible marker system call the tracer recognises: write(-1, _, 77|78|100+phase)
 pub fn marker(n: usize) {
+    if n >= 100 && std::env::var("PTX_PRINT_PHASE").is_ok() {
+        // the atomic-operation crash leg cannot be traced: the victim announces its phases itself
+        use std::io::Write;
+        println!("PHASE {}", n - 100);
+        let _ = std::io::stdout().flush();
+    }
     unsafe {
         libc::write(-1, b"PTX".as_ptr() as *const libc::c_void, n);
     }
